@@ -887,3 +887,69 @@ def namespace_globals(tree: Tree, prefixes: Sequence[str]) -> List[Tuple[str, in
                 continue  # `name;` alone is an expression/macro, not a declaration
             out.append((rel, toks[i - 1].line if i - 1 < n else 0, ids[-1], " ".join(parts)[:140]))
     return out
+
+
+SLOT_ACCESSOR = re.compile(r"slot_(live|occupied|added|removed|published|updated|constructed|modified)|key_at_slot|at_slot|value_at_slot|entry_at|has_slot|slot_key")
+# per-slot side tables (vectors indexed by slot id and grown with the slot store): their size() IS a slot bound
+SLOT_BOUND_EXCEPTIONS = {("proxy.cpp", "built_times_.size()"): "built_times_ is a per-slot vector grown in on_slot_inserted"}
+
+
+def slot_bounds(run: Run, rule: str, prefixes: Sequence[str], floor: int = 1) -> None:
+    """Slot ids are SPARSE: they index the slot store, not the live elements.  (A) every counted loop whose index is handed to a
+    slot-indexed accessor is bounded by a slot capacity; (B) a slot id returned by find_slot is compared only with a slot capacity
+    (or the no-slot sentinel).  A live count (size(), entry_count()) as the bound silently skips elements above a hole."""
+    tree = run.tree
+    loops_n = cmp_n = 0
+    for rel in tree.all_files():
+        if not any(rel.startswith(p) for p in prefixes):
+            continue
+        fi = tree.file(rel)
+        for fd in fi.funcs:
+            if fd.body is None:
+                continue
+            body = fi.text(fd.body[0], fd.body[1])
+            if "slot" not in body:
+                continue
+            fa = parse(run, fd, strict=False)
+            cn = aliases_of(fa)
+            locals_ = {}
+            for d in find(fa, lambda n: isinstance(n, C.Declarator) and n.init is not None and n.bindings is None):
+                locals_[d.name] = None if d.name in locals_ else cn(d.init)
+
+            def res(x: str) -> str:
+                for _ in range(3):
+                    if locals_.get(x):
+                        x = locals_[x]
+                return x
+            for l in loops(fa):
+                if not isinstance(l, C.For):
+                    continue
+                sh = loop_shape(l, cn)
+                v = sh.get("var")
+                if not v or sh.get("cond_op") != "<":
+                    continue
+                uses = [c for c in calls(l.body) if SLOT_ACCESSOR.fullmatch(callee_name(c).split("::")[-1] or "") and any(cn(a) == v for a in c.args)]
+                if not uses:
+                    continue
+                loops_n += 1
+                run.count(1, f"{rule}.loop")
+                b = res(sh.get("cond_r", ""))
+                if "slot_capacity(" in b or (rel.split("/")[-1], b) in SLOT_BOUND_EXCEPTIONS:
+                    continue
+                run.finding(rule, f"{fd.name}:slot-loop-bound:{b[:60]}", f"{fd.qual}: the loop over slot ids `{v}` (used by {callee_name(uses[0])}) is bounded by `{b}`, "
+                            "which is not a slot capacity: slot ids are sparse, elements in slots above a hole are skipped", loc=fa.loc(l))
+            for n in fa.body.walk():
+                if not (isinstance(n, C.Binary) and n.op in ("<", ">=", ">", "<=")):
+                    continue
+                for a, b in ((n.l, n.r), (n.r, n.l)):
+                    ta = res(cn(a))
+                    if "find_slot(" not in ta:
+                        continue
+                    tb = res(cn(b))
+                    cmp_n += 1
+                    run.count(1, f"{rule}.cmp")
+                    if "slot_capacity(" in tb or "NO_CHILD" in tb or "npos" in tb:
+                        continue
+                    run.finding(rule, f"{fd.name}:slot-id-compared-with:{tb[:60]}", f"{fd.qual}: a slot id from find_slot is compared with `{tb}`, which is not a slot "
+                                "capacity: a live key in a slot above a hole is treated as absent", loc=fa.loc(n))
+    run.sites(loops_n + cmp_n, floor, "slot-id bounds")
